@@ -15,7 +15,9 @@ RULE = ('fields NY 1..4 x NX 2..7; "exact" stream: integer grids times 2^ue (bin
         'so 2..5 x 2..5 grids do not exist in this format; padding 0..a few bytes, or >= 108 in the bigpad stream), blank or NUL padding, written by a Python '
         'reference encoder (compared byte for byte with the Coq encoder, decoded by the Coq decoder) and read by arlpackedbit: variable list, level list, times '
         'and every unpacked field compared exactly with the Coq model of the reader and with the ideal view of the content; separate streams: two columns / two rows, '
-        'key shared by surface and upper level (region 6), writearlpackedbit on an in-memory file (region 4). Corpus: the witnesses of the two repaired reader defects.')
+        'key shared by surface and upper level (region 6), writearlpackedbit on an in-memory file (output compared byte for byte with the Gallina writer and decoded by the reference decoder). '
+        'foreign-* (8%): fields packed by a reference packer with the ORIGINAL exponent rule (largest difference up to 128 quanta, codes may wrap), decoded by the library unpack only. '
+        'Corpus: the witnesses of the five repaired defects.')
 TRUSTED = ['numpy binary32 elementwise arithmetic is exact on the exact stream (checked per case: unpacked values integral in the unit)',
            'libm logf used for NEXP: model uses floor(log2 RMAX)+1 and accepts NEXP one lower at exact powers of two',
            'modelled, not verified: numpy int32->uint8 store wraps mod 256; np.cumsum sums sequentially',
@@ -33,6 +35,9 @@ def gen(rng, n, tier):
     for i in range(n):
         if rng.random() < FILE_FRACTION[tier if tier in FILE_FRACTION else 'quick']:
             out.append(gen_file(rng, tier))
+            continue
+        if rng.random() < 0.08:
+            out.append(gen_foreign(rng))
             continue
         r = rng.random()
         ny = rng.randint(1, 4)
@@ -114,6 +119,8 @@ def _field(case):
 
 
 def impl(case):
+    if case['kind'].startswith('foreign-'):
+        return impl_foreign(case)
     if case['kind'].startswith('file-'):
         return impl_file(case)
     if case['kind'].startswith('write'):
@@ -154,6 +161,8 @@ def _exact_view(case, obs):
 
 
 def coq_term(case, obs):
+    if case['kind'].startswith('foreign-'):
+        return coq_term_foreign(case, obs)
     if case['kind'].startswith('file-'):
         return coq_term_file(case, obs)
     if case['kind'].startswith('write'):
@@ -167,6 +176,8 @@ def coq_term(case, obs):
 
 def py_check(case, obs):
     """exact-rational oracle for the statement, independent of the Coq model"""
+    if case['kind'].startswith('foreign-'):
+        return dict(s_ok='raises' not in obs, region=0, why='unpack raised' if 'raises' in obs else '')
     if case['kind'].startswith(('file-', 'write')):
         return py_check_file(case, obs)
     if 'raises' in obs:
@@ -195,7 +206,7 @@ def py_check(case, obs):
 
 
 def nontrivial(case, obs):
-    if case['kind'].startswith(('file-', 'write')):
+    if case['kind'].startswith(('file-', 'write', 'foreign-')):
         return True
     if 'raises' in obs:
         return False
@@ -203,6 +214,8 @@ def nontrivial(case, obs):
 
 
 def shrink(case):
+    if case['kind'].startswith('foreign-'):
+        return
     if case['kind'].startswith(('file-', 'write')):
         for c in shrink_file(case):
             yield c
@@ -217,22 +230,19 @@ def shrink(case):
         for k in range(len(rows[0])):
             yield dict(case, rows=[r[:k] + r[k + 1:] for r in rows])
 
-LEVEL_TEXT = ('Theorems (Props/C20.v, all closed under the global context). Pack layer, exact Gallina model of pack2d/unpack: for every '
-              'field shape (>=2 columns), every quantum and every field whose scan-order neighbour differences are <= 127 quanta the round '
-              'trip is within half a quantum, no code leaves 0..255, the decoder reproduces the encoder\'s running values and the first '
-              'element is exact (C20_error_bound_half, C20_spec_partial, C20_first_exact, C20_decoder_mirrors_encoder); the full statement '
-              '(differences < 128 quanta, which is all the exponent rule guarantees: C20_exponent_covers) is refuted with vm_compute '
-              'witnesses (C20_error_bound_q_refuted, C20_no_wraparound_refuted) = known findings, region 1. File layer (Model/ArlFile.v, describing the reader '
-              'after the two repairs fixes/C20-arl-index-table-length.patch and fixes/C20-arl-two-column-edges.patch): '
-              'full strength: reference decoder inverts reference encoder for every well-formed content (C20_file_dec_enc); the bytes at the spec '
-              'offset of (time, level, variable) are that record and the library\'s dtype arithmetic computes that offset (C20_file_record_at_offset, '
-              'C20_file_lib_offset); tie T over Gen/Arl.v (C20_gen_sizes, C20_gen_label_fields, C20_gen_lenh, C20_gen_record_length, C20_gen_table_widths). '
-              '_partial: the reader model returns the ideal view (variable list, level list, times, every record) on the encoding of every well-formed uniform content '
-              'with >= 2x2 cells and no key shared between surface and upper levels (C20_file_reader_partial); fields of a spec-encoded file are within one quantum '
-              'when inside the proved range (C20_file_field_bound_partial); the blank-terminated table parser returns the table (C20_file_readvardef_partial). '
-              '_refuted (vm_compute witnesses = known findings): key shared by surface and upper level (C20_file_shared_key_refuted, region 6); writer raises for every '
-              'input (C20_file_writer_raises_refuted, region 4). '
-              'Ties: H (library pack2d/unpack, arlpackedbit, writearlpackedbit vs models, bit-for-bit on binary32-exact data) and T (19 anchors of _arl.py).')
+LEVEL_TEXT = ('Theorems (Props/C20.v, all closed under the global context), describing /repo after the repairs eb44dd8, 409cb18 (reader), fa89813 (pack2d exponent), '
+              '6a4afc6 (writer). Pack layer, exact Gallina model of pack2d/unpack: MAIN C20_spec_fixed_exponent: for EVERY field shape (>=2 columns) and EVERY field, with the '
+              'exponent pack2d chooses (nexp_rule_fixed, tied to the source by C20_gen_bump; C20_fixed_exponent_covers) the round trip is within one (even half a) quantum, first '
+              'element exact, no code outside 0..255; for any h with RMAX <= 127 quanta C20_error_bound_half, C20_spec_in_range; for every input C20_first_exact, '
+              'C20_decoder_mirrors_encoder; decoding of fields packed by other tools with any exponent is the packer\'s running value whenever no code wrapped '
+              '(C20_foreign_decode; why the original rule was insufficient: C20_original_rule_overflows, C20_exponent_covers). File layer (Model/ArlFile.v): '
+              'full strength: reference decoder inverts reference encoder (C20_file_dec_enc); record offsets (C20_file_record_at_offset, C20_file_lib_offset); table parser '
+              '(C20_file_readvardef); times (C20_file_times); writer: for every in-memory file the output decodes to its content, the reader model returns the ideal view and every '
+              'field comes back within half a quantum (C20_file_write_read); tie T over Gen/Arl.v (C20_gen_sizes, C20_gen_label_fields, C20_gen_lenh, C20_gen_record_length, '
+              'C20_gen_table_widths, C20_gen_bump). _partial: reader model = ideal view for every well-formed uniform content with >= 2x2 cells and no key shared between surface '
+              'and upper levels (C20_file_reader_partial); fields of a foreign spec-encoded file within one quantum when RMAX <= 127 q (C20_file_field_bound_partial). '
+              '_refuted (vm_compute witness = the one remaining known finding): key shared by surface and upper level (C20_file_shared_key_refuted, region 6). '
+              'Ties: H (library pack2d/unpack, arlpackedbit, writearlpackedbit vs models, bit-for-bit on binary32-exact data; writer output byte-identical to impl_write) and T (20 anchors of _arl.py).')
 LEVEL_NOTE = ('Trusted: Coq kernel + vm_compute; the correspondence harness incl. its Python reference encoder (checked per case against the Coq encoder); '
               'numpy binary32 arithmetic exact on the generated exact stream (verified per case); logf only through the exponent check; Python float() of the '
               'E14.7 label text; translate/py2coq.py and the normalisations in harness/gen_arl.py. The arbitrary-float stream is decided by a rational oracle in Python.')
@@ -319,6 +329,11 @@ def gen_file(rng, tier):
                             cur += rng.choice([0, 0, D, -D])
                         row.append(cur)
                     rows.append(row)
+                if kind == 'write':
+                    ds = [abs(r[i + 1] - r[i]) for r in rows for i in range(nx - 1)] + [abs(rows[j + 1][0] - rows[j][0]) for j in range(ny - 1)]
+                    m = max(ds)
+                    if m > 0 and m & (m - 1) == 0:
+                        rows[-1][-1] += 3 * m
                 fl.append(rows)
             ft.append(fl)
         fields.append(ft)
@@ -333,16 +348,8 @@ def _trunc_div(n, d):
     return q if n >= 0 else -q
 
 
-def ref_pack(rows):
-    """pack one field of ints (true values); exact integer arithmetic in unit 2^FILE_UE.
-    -> (bytes row-major, NEXP, VAR1 int, KSUM).  Written from the ARL description (PAKOUT):
-    NEXP = floor(log2 RMAX) + 1 (1 when RMAX = 0), code = INT(diff * 2^(7-NEXP) + 127.5)."""
-    s = -FILE_UE
-    x = [[v << s for v in r] for r in rows]
-    ds = [abs(r[i + 1] - r[i]) for r in x for i in range(len(r) - 1)] + [abs(x[j + 1][0] - x[j][0]) for j in range(len(x) - 1)]
-    rmax = max(ds) if ds else 0
-    nexp = 1 if rmax == 0 else rmax.bit_length() + FILE_UE
-    h = 1 << (nexp - 8 - FILE_UE)
+def _int_pack(x, h):
+    """pack integer rows with half quantum h (exact): bytes rows"""
     out = [[0] * len(r) for r in x]
     rold = x[0][0]
     col = []
@@ -357,7 +364,34 @@ def ref_pack(rows):
             c = _trunc_div(x[j][i] - rold + 255 * h, 2 * h)
             out[j][i] = c % 256
             rold = (c - 127) * 2 * h + rold
-    flat = [b for r in out for b in r]
+    return out
+
+
+def _int_rmax(x):
+    ds = [abs(r[i + 1] - r[i]) for r in x for i in range(len(r) - 1)] + [abs(x[j + 1][0] - x[j][0]) for j in range(len(x) - 1)]
+    return max(ds) if ds else 0
+
+
+def _nexp_rel(rmax, fixed):
+    """NEXP relative to the unit: original PAKOUT rule floor(log2 RMAX)+1, or the library's rule since fa89813
+    (one more when RMAX exceeds 127 quanta 2^(NEXP-7))"""
+    e = rmax.bit_length()
+    if fixed and 127 * 2 ** e < 128 * rmax:
+        e += 1
+    return e
+
+
+def ref_pack(rows, fixed=False):
+    """pack one field of ints (true values); exact integer arithmetic in unit 2^FILE_UE.
+    -> (bytes row-major, NEXP, VAR1 int, KSUM).  Written from the ARL description (PAKOUT):
+    NEXP = floor(log2 RMAX) + 1 (1 when RMAX = 0), code = INT(diff * 2^(7-NEXP) + 127.5).
+    fixed=True: the exponent rule of the library's own packer."""
+    s = -FILE_UE
+    x = [[v << s for v in r] for r in rows]
+    rmax = _int_rmax(x)
+    nexp = 1 if rmax == 0 else _nexp_rel(rmax, fixed) + FILE_UE
+    h = 1 << (nexp - 8 - FILE_UE)
+    flat = [b for r in _int_pack(x, h) for b in r]
     return flat, nexp, rows[0][0], sum(flat) % 255
 
 
@@ -371,7 +405,7 @@ def ref_content(case):
         for li, l in enumerate(case['levels']):
             vs = []
             for vi, k in enumerate(l['keys']):
-                data, nexp, var1, ksum = ref_pack(case['fields'][t][li][vi])
+                data, nexp, var1, ksum = ref_pack(case['fields'][t][li][vi], fixed=case['kind'].startswith('write'))
                 vs.append(dict(key=k, ck=ksum, exp=nexp, prec='%14.7E' % (2.0 ** nexp / 254.0), var1='%14.7E' % float(var1), data=data, v1=var1))
             lv.append(dict(text=l['text'], vars=vs))
         periods.append(dict(time=''.join('%2d' % v for v in tm), grid=case['grid'], fixed=case['fixed'], nx=nx, ny=ny,
@@ -551,19 +585,49 @@ def coq_term_file(case, obs):
     return '(RCase (FileC %s %s %s %s %s %s))' % (_coq_periods(periods), C.zlist(list(data)), C.zc(FILE_UE), _v1tab(periods), _unit_rows(case), o)
 
 
+def ref_vgtxt(v):
+    """F6 text of a level height with as many decimals as fit (the rule the ARL tools use)"""
+    import math
+    dp = 0 if v == 0 else math.floor(math.log10(v) + 1)
+    return (('%%6.%df' % min(5, 5 - dp)) % v)[-6:]
+
+
+def _write_texts(case):
+    import numpy as np
+    lv = [ref_vgtxt(float(case['levels'][0]['text']))] + [ref_vgtxt(float(np.float32(float(l['text'])))) for l in case['levels'][1:]]
+    ff = '%2d' % case['times'][0][4]
+    tm = ['%02d%02d%02d%02d' % tuple(t[:4]) + ff for t in case['times']]
+    return lv, tm
+
+
 def coq_term_write(case, obs):
+    import numpy as np
     periods = ref_content(case)
+    lv, tm = _write_texts(case)
     o = 'None' if 'raises' in obs else '(Some %s)' % C.zlist(obs['bytes'])
-    return '(WCase (WriteC %s %s %s %s [%s] [%s] %s %s %s))' % (
+    s = -FILE_UE
+    wps = []
+    tab = {}
+    for t, p in enumerate(periods):
+        lvls = []
+        for li, l in enumerate(p['levels']):
+            fs = []
+            for vi, v in enumerate(l['vars']):
+                rows = [[x << s for x in r] for r in case['fields'][t][li][vi]]
+                prec = '%14.7E' % np.float32(2.0 ** v['exp'] / 254.0)
+                tab[v['var1']] = v['v1'] << s
+                fs.append('(WField %s %s %s %s %s %s)' % (_bs(v['key']), C.zc(1 << (v['exp'] - 8 - FILE_UE)), C.zc(v['exp']), _bs(prec), _bs(v['var1']), C.zll(rows)))
+            lvls.append('(%s, [%s])' % (_bs(lv[li]), '; '.join(fs)))
+        wps.append('(WPeriod %s [%s])' % (_bs(tm[t]), '; '.join(lvls)))
+    win = '(WInput %s %s %s %s %s [%s])' % (_bs(case['grid']), _bs(case['fixed']), C.zc(case['nx']), C.zc(case['ny']), _bs(case['vsys2']), '; '.join(wps))
+    return '(WCase (WriteC %s %s %s %s [%s] [%s] %s %s %s %s))' % (
         C.zc(case['nx']), C.zc(case['ny']), C.zc(FILE_UE), C.zll([t[:4] for t in case['times']]),
-        '; '.join(_bs(l['text']) for l in case['levels']),
+        '; '.join(_bs(x) for x in lv),
         '; '.join('[' + '; '.join(_bs(k) for k in l['keys']) + ']' for l in case['levels']),
-        _v1tab(periods), _unit_rows(case), o)
+        _v1tab(periods), _unit_rows(case), win, o)
 
 
 def file_region(case):
-    if case['kind'].startswith('write'):
-        return 4
     if case['nx'] < 2 or case['ny'] < 2:
         return 5
     if set(case['levels'][0]['keys']) & set(k for l in case['levels'][1:] for k in l['keys']):
@@ -602,6 +666,67 @@ def shrink_file(case):
                 lv = [dict(x) for x in case['levels']]
                 lv[l]['keys'] = ks[:v] + ks[v + 1:]
                 yield dict(case, levels=lv, fields=[[fl if i != l else fl[:v] + fl[v + 1:] for i, fl in enumerate(ft)] for ft in case['fields']])
+
+
+# ------------------------------------------------------------------- fields packed by another tool
+def gen_foreign(rng):
+    """a field packed by a foreign tool with the ORIGINAL exponent rule (largest difference anywhere up to
+    128 quanta, so codes may wrap); only the library's unpack is exercised"""
+    ny, nx = rng.randint(1, 4), rng.randint(2, 7)
+    style = rng.choice(['edge', 'edge', 'walk', 'pow2m1'])
+    k = rng.randint(7, 13)
+    q = 2 ** (k - 6)
+    big = {'walk': rng.randint(1, 2 ** k), 'pow2m1': 2 ** k - 1}.get(style) or rng.randint(127 * q + 1, 128 * q - 1)
+    v0 = rng.randint(-50000, 50000)
+    rows = []
+    placed = False
+    for j in range(ny):
+        first = (rows[-1][0] if rows else v0) + (rng.randint(-big, big) if rows else 0)
+        row = [first]
+        for kx in range(nx - 1):
+            if rng.random() < 0.35 or (not placed and j == ny - 1 and kx == nx - 2):
+                d = big * rng.choice([1, -1]); placed = True
+            else:
+                d = rng.randint(-big, big)
+            row.append(row[-1] + d)
+        rows.append(row)
+    return dict(kind='foreign-' + style, ue=rng.randint(-40, 40), rows=rows)
+
+
+def _foreign_view(case):
+    rmax = _int_rmax(case['rows'])
+    nrel = 1 if rmax == 0 else _nexp_rel(rmax, False)
+    s = max(0, 8 - nrel)
+    rows = [[v << s for v in r] for r in case['rows']]
+    h = 1 << (nrel + s - 8)
+    return rows, h, nrel + s, case['ue'] - s
+
+
+def impl_foreign(case):
+    import numpy as np
+    from PseudoNetCDF.noaafiles._arl import unpack
+    rows, h, nrel, ue2 = _foreign_view(case)
+    b = np.array(_int_pack(rows, h), dtype='uint8')
+    var1 = np.ldexp(np.float64(rows[0][0]), ue2)
+    with np.errstate(all='ignore'):
+        u = unpack(b.view('>S1'), np.array(var1), np.array(nrel + ue2))
+    return dict(bytes=b.astype(int).tolist(), unp=[[float(v).hex() for v in r] for r in u.astype('d')], dtype=str(u.dtype))
+
+
+def coq_term_foreign(case, obs):
+    if 'raises' in obs:
+        return None
+    rows, h, nrel, ue2 = _foreign_view(case)
+    unp = []
+    for r in obs['unp']:
+        rr = []
+        for hx in r:
+            f = Fraction(float.fromhex(hx)) / (Fraction(2) ** ue2)
+            if f.denominator != 1:
+                return None
+            rr.append(int(f))
+        unp.append(rr)
+    return '(DCase (DecodeC %s %s %s %s %s))' % (C.zc(h), C.zll(rows), C.zc(nrel), C.zll(obs['bytes']), C.zll(unp))
 
 
 def translate():
